@@ -126,6 +126,13 @@ func c01Run(s *c01Scn, va c01Variant, seedv int64) verdict {
 		options.WithTimeoutOps(4 * time.Second),
 	}
 
+	if s.ID%3 == 1 && len(outs) > 0 && len(strings.TrimSpace(outs[0])) >= 2 {
+		// failure marking is switched on and the first answer is marked (as every platform definition does it): marking an
+		// answer must not change what is returned for it or for the commands after it
+		t := strings.TrimSpace(outs[0])
+		opts = append(opts, options.WithFailedWhenContains([]string{t[:2]}))
+	}
+
 	var d cmdSender
 
 	var err error
